@@ -546,6 +546,8 @@ def coerce_elem(self, template, v, st=None):
         return Opt(v.isnone, V.fresh_like(template.val, "none"))
     if is_z3(template) and is_z3(v) and template.sort() == R and v.sort() == I:
         return z3.ToReal(v)
+    if is_z3(template) and template.sort() == R and isinstance(v, PyConst) and isinstance(v.value, str):
+        return self.str_code(v.value)       # a string literal where a string is expected: its code (distinct literals, distinct codes)
     return v
 
 
